@@ -159,8 +159,15 @@ def tables(ctx, report, folder):
                  [short(a) for a in adj], "2")
     uses = [src(n) for n in walk_no_nested(tc.node) if isinstance(n, ast.Subscript)
             and src(n.value) in ("PAC_HIGH_BYTE_BY_ROW", "PAC_LOW_BYTE_BY_ROW_RESTRICTED")]
-    report.check(sorted(uses) == ["PAC_HIGH_BYTE_BY_ROW[row]", "PAC_LOW_BYTE_BY_ROW_RESTRICTED[row]"], "R-FIELD-ROUTING",
-                 tc, "high and low PAC bytes are taken for the same row", uses, "2")
+    # (spelling only: the fold above decides the clause - a word whose two bytes belong to different rows is not the address of
+    # any expected row)
+    idx_ = {u.split("[", 1)[0]: {v.split("[", 1)[1] for v in uses if v.split("[", 1)[0] == u.split("[", 1)[0]} for u in uses}
+    if set(idx_) == {"PAC_HIGH_BYTE_BY_ROW", "PAC_LOW_BYTE_BY_ROW_RESTRICTED"} and all(len(v) == 1 for v in idx_.values()) \
+            and idx_["PAC_HIGH_BYTE_BY_ROW"] == idx_["PAC_LOW_BYTE_BY_ROW_RESTRICTED"]:
+        report.ok("R-FIELD-ROUTING", tc, "high and low PAC bytes are taken for the same row", sorted(set(uses)), "2")
+    else:
+        report.info("R-STRUCTURE", tc, "_text_to_code: the two PAC table look-ups are not spelled with one index expression "
+                    "(spelling not recognised)", {"uses": uses, "clause_decided_by": "R-AFFINE: the rows addressed, folded for 1-4 lines"}, None)
 
 
 def wrap(ctx, report):
